@@ -1003,12 +1003,17 @@ class NDCube(NDCubeBase):
             # How an uncertainty scales depends on what it measures: a standard deviation
             # scales with the magnitude of the factor, a variance with its square.
             uncertainty_type = getattr(self.uncertainty, "uncertainty_type", None)
+            # The square of a factor of a narrow integer type (e.g. numpy.int8) does not fit
+            # that type: work out the factors of the uncertainty in floating point.
+            factor = value
+            if np.issubdtype(np.asarray(value).dtype, np.integer):
+                factor = np.asarray(value, dtype=float)
             if uncertainty_type == "std":
-                uncertainty_factor = np.abs(value)
+                uncertainty_factor = np.abs(factor)
             elif uncertainty_type == "var":
-                uncertainty_factor = np.square(value)
+                uncertainty_factor = np.square(factor)
             elif uncertainty_type == "ivar":
-                uncertainty_factor = 1 / np.square(value)
+                uncertainty_factor = 1 / np.square(factor)
             else:
                 uncertainty_factor = value
             new_uncertainty = type(self.uncertainty)(self.uncertainty.array * uncertainty_factor)
